@@ -46,6 +46,9 @@ def run(ck):
     c03.run_setters(radio, agg, contract.SETTERS)
     from . import c08
     c08.events_kept(radio, agg)
+    # "True iff acknowledged": the auto-ack is heard on pipe 0, which open_tx_pipe() / the listen setter must have put on the TX address, and
+    # "only its own payload": unused ACK payloads are flushed on TX entry (R08.x, shared with C08)
+    c08.run_for(ck, radio, agg)
     # the sibling driver rf24_lite.RF24 implements the same send()/resend() contract: the same rules, same oracle (shared with C20)
     lite = Radio(ck, "rf24_lite", "RF24")
     run_for(ck, lite, agg, lite=True)
